@@ -363,6 +363,28 @@ pub fn dimension_discipline(cx: &mut Ctx, rule: &str, facts: &Facts) {
             Some(why) => cx.fail(rule, &format!("{}/arith/{}/{}#{}", rule, func, kind, n), "parser/src", &format!("{} {}: the result is not `start offset + consumed bytes` any more (operand dimensions {:?}, {:?})", func, why, dims[0], dims[1])),
         }
     }
+    // (a') positions only advance: an in-place subtraction `p -= x` on a TextSize is accepted only where x is provably a
+    // length in the same body (the reviewed tree has no such site at all); a subtrahend that comes from a capture, a
+    // field or a parameter cannot be told from a position
+    {
+        let mut n_sub_assign = 0;
+        for c in &cf.calls {
+            if is_generated_internal(&c.caller, &c.file) || !short(&c.callee).contains("SubAssign") || !short(&c.callee).ends_with("sub_assign") || !c.substs.contains("TextSize") {
+                continue;
+            }
+            n_sub_assign += 1;
+            let site = format!("{}@{}:{}:{}", c.caller, c.file, c.line, c.col);
+            let dim1 = operands.get(&site).map(|o| o.2[1]).unwrap_or(Dim::U);
+            if dim1 == Dim::L {
+                cx.ok(rule, &format!("{}: `-=` by a length", c.caller));
+            } else {
+                cx.fail(rule, &format!("{}/arith/{}/sub_assign-unproven#{}", rule, crate::rules::c03::fold_closures(&c.caller), n_sub_assign), &format!("{}:{}", c.file, c.line), &format!("{} subtracts in place (`-=`) a value that is not provably a length from a TextSize: a position minus a position is a length, and storing it back makes an offset that no longer moves with the start offset", c.caller));
+            }
+        }
+        if n_sub_assign == 0 {
+            cx.ok(rule, "no in-place subtraction on a TextSize in the parser crate: positions only advance");
+        }
+    }
     // (b), (c) sinks of lengths / constants
     let mut per_sink: BTreeMap<String, usize> = BTreeMap::new();
     for v in &vals {
